@@ -88,15 +88,27 @@ def behaviour(case, entry):
     # for the breaker even when none is configured); everything else observable is compared.
     # Attempt hooks (on_attempt_start/on_attempt_end) are not among the interactions the property lists
     # and are known to differ between call() and execute() on abort paths (observation in DESIGN.md).
-    proj = [x for x in C.projection(cv)[:-1] if x[0] not in ("'classify'", "'rclassify'", "att_start", "att_end")]
+    full = C.projection(cv)[:-1]
+    proj = [x for x in full if x[0] not in ("'classify'", "'rclassify'", "att_start", "att_end")]
+    # ...but entry points that deliver the result the same way (call with call, execute with execute) must
+    # also invoke the attempt hooks alike: same hook, same moment relative to the operation, same arguments
+    cv.hook_proj = [x for x in full if x[0] in ("att_start", "att_end", "op", "op_end")]
     return proj, norm_final(cv), cv
 
 
 def compare(case, entries, out, v):
     base_entry = entries[0]
     bp, bf, bcv = behaviour(case, base_entry)
+    hook_base: dict = {base_entry.rsplit(".", 1)[-1]: (base_entry, bcv.hook_proj)}
     for e in entries[1:]:
-        p, f, _ = behaviour(case, e)
+        p, f, ecv = behaviour(case, e)
+        mode = e.rsplit(".", 1)[-1]
+        if mode not in hook_base:
+            hook_base[mode] = (e, ecv.hook_proj)
+        elif p == bp and ecv.hook_proj != hook_base[mode][1]:
+            hb = hook_base[mode][1]
+            i = next((i for i, (x, y) in enumerate(zip(hb, ecv.hook_proj)) if x != y), min(len(hb), len(ecv.hook_proj)))
+            out.append((f"C12:attempt-hooks:{_family(e)}", f"{hook_base[mode][0]}~{e}: attempt hooks differ at {i}: {hb[i:i+2]} vs {ecv.hook_proj[i:i+2]}"))
         v.evals += 1
         pair = f"{base_entry}~{e}"
         if p != bp:
